@@ -779,6 +779,9 @@ func (p *Process) setUpProbes() {
 }
 
 func (p *Process) startProbes() {
+	if verifInjectedProbes() {
+		return
+	}
 	if p.liveProber != nil {
 		p.liveProber.Start()
 	}
